@@ -82,8 +82,14 @@ func otSetup(r *vk.Rand) (*ot.CorreOTSendSetup, *ot.CorreOTReceiveSetup, error) 
 	return ss, rs, nil
 }
 
+// choiceVec returns the vector as the front part of a larger buffer whose tail is a sentinel pattern (callers pass
+// sub-slices of their own buffers; a callee must neither change the vector nor write behind it).
 func choiceVec(r *vk.Rand, class string, n int) []byte {
-	c := make([]byte, n)
+	buf := make([]byte, n+96)
+	for i := n; i < len(buf); i++ {
+		buf[i] = 0xA5
+	}
+	c := buf[:n]
 	switch class {
 	case "all0":
 	case "all1":
@@ -194,6 +200,20 @@ func c13Layers(t *vk.T, i int) {
 		for _, nbytes := range []int{16, 11, 1, 40} {
 			_ = ctx.WriteAny([]byte{byte(ci), byte(nbytes)})
 			choices := choiceVec(r, class, nbytes)
+			saved := append([]byte{}, choices...)
+			untouched := func(after string) bool {
+				full := choices[:cap(choices)]
+				ok := bytes.Equal(full[:nbytes], saved)
+				for _, b := range full[nbytes:] {
+					if b != 0xA5 {
+						ok = false
+					}
+				}
+				if !ok {
+					t.Violation("choices|caller-buffer-modified|"+after, "after %s the caller's choice vector (or the bytes of the caller's buffer behind it) changed (batch %d, class %s)", after, 8*nbytes, class)
+				}
+				return ok
+			}
 			// correlated
 			msg, rres := ot.CorreOTReceive(ctx.Clone(), rs, choices)
 			sres, err := ot.CorreOTSend(ctx.Clone(), ss, 8*nbytes, msg)
@@ -217,8 +237,14 @@ func c13Layers(t *vk.T, i int) {
 					break
 				}
 			}
+			if !untouched("CorreOTReceive") {
+				continue
+			}
 			// extended
 			emsg, eres := ot.ExtendedOTReceive(ctx.Clone(), rs, choices)
+			if !untouched("ExtendedOTReceive") {
+				continue
+			}
 			esres, err := ot.ExtendedOTSend(ctx.Clone(), ss, 8*nbytes, emsg)
 			if err != nil {
 				t.Violation("extendedOT|honest-error|"+class, "batch %d: %v", 8*nbytes, err)
@@ -246,6 +272,9 @@ func c13Layers(t *vk.T, i int) {
 			as := ot.NewAdditiveOTSender(ctx.Clone(), ss, 8*nbytes, alpha)
 			ar := ot.NewAdditiveOTReceiver(ctx.Clone(), rs, group, choices)
 			am := ar.Round1()
+			if !untouched("AdditiveOTReceiver.Round1") {
+				continue
+			}
 			asm, asres, err := as.Round1(am)
 			if err != nil {
 				t.Violation("additiveOT|honest-error|"+class, "%v", err)
